@@ -20,5 +20,20 @@ CasesRepl == {Mk("Replace", <<s, o, w>>, n, <<>>) : s \in (IF Quick THEN {"", "a
 CasesReplAll == {Mk("ReplaceAll", <<s, o, w>>, 0, <<>>) : s \in (IF Quick THEN {"", "a", "ab", "aa", "aaa", "abab", "aabaa"} ELSE Long), o \in {"", "a", "ab", "aa"}, w \in {"", "b", "xy"}}
 Elems == {<<>>, <<"a">>, <<"">>, <<"a", "b">>, <<"", "">>, <<"a", "", "b">>, <<"ab", "c d", "e">>, <<"a", "b", "c", "d">>}
 CasesJoin == {Mk("Join", <<sep>>, 0, es) : sep \in {"", ",", ", ", "ab"}, es \in Elems}
-ASSUME ndJsonSerialize("fam.ndjson", SetToSeq(Cases2 \cup Cases1 \cup CasesRep \cup CasesRepl \cup CasesReplAll \cup CasesJoin))
+\* long arguments: a needle at every position 0..70 of a string of 72 characters (windows, chunks and counters sized by a power of two or by ten),
+\* separators and cut points beyond two digits, many fields, many repetitions
+RECURSIVE RepS(_, _)
+RepS(c, n) == IF n = 0 THEN "" ELSE c \o RepS(c, n - 1)
+At(k, nd, total) == RepS("a", k) \o nd \o RepS("a", total - k - Len(nd))
+Pos == IF Quick THEN {0, 8, 9, 10, 11, 15, 16, 17, 29, 30, 31, 32, 33, 62, 63, 64, 65, 69} ELSE 0..69
+CasesLong == {Mk(f, <<At(k, nd, 72), nd>>, 0, <<>>) : f \in {"Index", "Contains", "Cut", "Split", "Count", "HasSuffix", "TrimSuffix", "CutSuffix"}, k \in Pos, nd \in {"b", "bcd"}}
+             \cup {Mk(f, <<RepS("a", k) \o "bb" \o RepS("a", 5) \o "b", "b">>, 0, <<>>) : f \in {"Index", "Count", "Split"}, k \in {9, 10, 31, 32, 63}}
+             \cup {Mk("Replace", <<At(k, "b", 40), "b", "XY">>, n, <<>>) : k \in {0, 9, 10, 31, 32, 39}, n \in {-1, 1}}
+             \cup {Mk("Repeat", <<sx>>, n, <<>>) : sx \in {"ab", "x"}, n \in {9, 10, 11, 16, 17, 32, 33, 64, 65}}
+             \cup {Mk("Split", <<RepS("x,", n) \o "end", ",">>, 0, <<>>) : n \in {9, 10, 11, 16, 17, 33}}
+             \cup {Mk("Join", <<",">>, 0, [i \in 1..n |-> "e" \o ToString(i)]) : n \in {9, 10, 11, 17, 33}}
+             \cup {Mk(f, <<RepS(" ", k) \o "mid dle" \o RepS(" ", k), " ">>, 0, <<>>) : f \in {"Trim", "TrimLeft", "TrimRight"}, k \in {9, 10, 17, 33}}
+             \cup {Mk("TrimSpace", <<RepS(" ", k) \o "mid dle" \o RepS("\t", k)>>, 0, <<>>) : k \in {9, 10, 17, 33}}
+             \cup {Mk(f, <<RepS("ab", k), RepS("ab", k - 1)>>, 0, <<>>) : f \in {"HasPrefix", "TrimPrefix", "CutPrefix", "HasSuffix", "Index"}, k \in {5, 8, 16, 17, 33}}
+ASSUME ndJsonSerialize("fam.ndjson", SetToSeq(CasesLong \cup Cases2 \cup Cases1 \cup CasesRep \cup CasesRepl \cup CasesReplAll \cup CasesJoin))
 =============================================================================
